@@ -3,7 +3,7 @@ from harness import sets_common as sc
 
 PROP = "C07"
 THEOREM_FILE = "Props/C07.v"
-EXTRA_THEOREM_FILES = ["Props/C07_ops.v"]   # part A (operators); the queries part adds its own file here
+EXTRA_THEOREM_FILES = ["Props/C07_ops.v", "Props/C07_queries.v"]   # part A (operators); the queries part adds its own file here
 RULE = ("pairs of IPSets built by short random histories (empty, single/mixed family, touching address 0 or the top "
         "address, nested / interleaved / adjacent / identical operands), then all four operators, every comparison, "
         "isdisjoint, membership of addresses and networks at block boundaries, size/len, iteration, iter_ipranges, "
@@ -17,7 +17,7 @@ W_QUERY = {"union": 2, "inter": 3, "diff": 3, "xor": 3, "view": 4, "cmp": 5, "co
 
 
 def cases(rng, tier):
-    n = 2500 if tier == "quick" else 80000
+    n = 1500 if tier == "quick" else 60000
     for _ in range(n):
         ops = sc.rand_history(rng, rng.randint(2, 8), W_BUILD)
         st = rng.getstate()
